@@ -393,6 +393,17 @@ def run(ctx, rep):
     netting(R, rep)
     taxable_and_proceeds(R, rep)
     grouping_fields(R, rep)
+    # a disposal is ALL legs of one (date, security): the grouping key (shared with C06-R3)
+    import rules.c06 as c06
+    from core import Report
+    r2 = Report("tmp")
+    c06.grouping(R, r2)
+    for o in r2.obligations:
+        if o["instance"].startswith("group:key"):
+            rep.ob("R5", o["instance"], o["ok"], o["detail"], o["site"], key="R5:" + o["instance"])
+    for v in r2.violations:
+        if v["instance"] == "GROUP":
+            rep.ob("R5", "group:function", False, v["detail"], v["site"], key="R5:group:function")
     dividends(R, rep)
     exemption(R, rep)
     merge_values(R, rep)
